@@ -2175,10 +2175,11 @@ func (r *Raft) nextConfiguration(next *Configuration) {
 		}
 	}
 
-	// Create entry for added nodes.
+	// Create entry for added nodes. The first index of the log is one - with a next index of zero,
+	// a leader that has not taken a snapshot yet would never send any entries to the node.
 	for id := range next.Members {
 		if _, ok := r.configuration.Members[id]; !ok {
-			r.followers[id] = new(follower)
+			r.followers[id] = &follower{nextIndex: 1}
 		}
 	}
 }
